@@ -138,11 +138,24 @@ func vpProbeCase(r *vfRng, st *vfStats) vfCase {
 			script[a] = rel{}
 		}
 	}
+	// one case in ten: nobody acknowledges, every relay answers with an early nack that the network duplicates, and
+	// the health score starts above zero — a failed probe must not IMPROVE it, however many nacks come in
+	nackStorm := npeers > 0 && r.chance(10)
+	if nackStorm {
+		directAck, foreignAck = false, false
+		for a := range script {
+			script[a] = rel{nack: true, at: time.Duration(1+r.n(int(P/time.Millisecond)))*time.Millisecond + time.Microsecond}
+		}
+	}
 	tcpMode := r.n(3) // 0 refuse, 1 matching ack, 2 ack with another sequence number
+	if nackStorm {
+		tcpMode = 0
+	}
 	tcpAt := grid()
 	t0 := time.Now()
 	var seq uint32
 	expectedNacks := 0
+	dupNacks := r.chance(25) || nackStorm
 	var arrivals [][]int64
 	var mu sync.Mutex
 	first := true
@@ -198,6 +211,14 @@ func vpProbeCase(r *vfRng, st *vfStats) vfCase {
 			if sc.nack {
 				tr.inject(to, nackRespMsg, &nackResp{SeqNo: ind.SeqNo}, sc.at)
 				arrivals = append(arrivals, []int64{1, int64(ind.SeqNo), vpUs(el + sc.at)})
+				if dupNacks {
+					// the datagram is duplicated on the way: more nacks than were asked for
+					for k := 1; k <= 2; k++ {
+						at := sc.at + time.Duration(k)*time.Millisecond + time.Microsecond
+						tr.inject(to, nackRespMsg, &nackResp{SeqNo: ind.SeqNo}, at)
+						arrivals = append(arrivals, []int64{1, int64(ind.SeqNo), vpUs(el + at)})
+					}
+				}
 			}
 			if sc.foreign {
 				tr.inject(to, ackRespMsg, &ackResp{SeqNo: ind.SeqNo + 5}, sc.at)
